@@ -67,6 +67,178 @@ func main() {
 	}
 }
 `,
+	"typeswitch": `package main
+
+import . "verif/engine/twin/h"
+
+type Sh interface{ Area() int }
+
+type Sq struct{ s int }
+
+func (q Sq) Area() int {
+	Show(@); return q.s * q.s
+}
+
+type Re struct{ w, h int }
+
+func (r *Re) Area() int {
+	Show(@); return r.w * r.h
+}
+
+func describe(v interface{}) int {
+	switch x := v.(type) {
+	case int:
+		Show(@); return x
+	case Sh:
+		Show(@); return x.Area()
+	case nil:
+		Show(@); return -1
+	default:
+		Show(@); return -2
+	}
+}
+
+func main() {
+	vals := []interface{}{3, Sq{2}, &Re{2, 3}, nil, "s"}
+	t := 0
+	for _, v := range vals {
+		Show(@); t += describe(v)
+	}
+	Show(@, t)
+}
+`,
+	"labels-goto": `package main
+
+import . "verif/engine/twin/h"
+
+func main() {
+	Show(@); n := 0
+outer:
+	for i := 0; i < 3; i++ {
+		for j := 0; j < 3; j++ {
+			if j == 2 {
+				Show(@); continue outer
+			}
+			if i == 2 {
+				Show(@); break outer
+			}
+			Show(@); n += i*10 + j
+		}
+	}
+	k := 0
+again:
+	if k < 2 {
+		Show(@); k++
+		goto again
+	}
+	Show(@, n, k)
+}
+`,
+	"nested-closures-defers": `package main
+
+import . "verif/engine/twin/h"
+
+func outer(n int) (res int) {
+	defer func() {
+		Show(@); res *= 2
+	}()
+	acc := func(d int) func() int {
+		return func() int {
+			Show(@); n += d
+			Show(@); return n
+		}
+	}
+	a, b := acc(1), acc(10)
+	for i := 0; i < 2; i++ {
+		defer func(k int) {
+			Show(@, k); res += k
+		}(i)
+		Show(@); res += a() + b()
+	}
+	Show(@); return res
+}
+
+func main() {
+	Show(@, outer(1))
+}
+`,
+	"multi-return-variadic": `package main
+
+import . "verif/engine/twin/h"
+
+func divmod(a, b int) (q, r int, ok bool) {
+	if b == 0 {
+		Show(@); return 0, 0, false
+	}
+	Show(@); q, r = a/b, a%b
+	Show(@); return q, r, true
+}
+
+func sum(xs ...int) int {
+	Show(@); t := 0
+	for _, x := range xs {
+		Show(@); t += x
+	}
+	Show(@); return t
+}
+
+func main() {
+	Show(@); q, r, ok := divmod(7, 2)
+	Show(@); _, _, ok2 := divmod(1, 0)
+	Show(@); s := sum(q, r)
+	Show(@); s2 := sum([]int{1, 2, 3}...)
+	Show(@, q, r, ok, ok2, s, s2, sum())
+}
+`,
+	"embedding": `package main
+
+import . "verif/engine/twin/h"
+
+type A struct{ n int }
+
+func (a *A) Inc() {
+	Show(@); a.n++
+}
+
+func (a A) Val() int {
+	Show(@); return a.n
+}
+
+type B struct {
+	A
+	m int
+}
+
+func (b B) Val() int {
+	Show(@); return b.A.Val() + b.m
+}
+
+func main() {
+	Show(@); b := B{A{1}, 10}
+	Show(@); b.Inc()
+	Show(@); v := b.Val()
+	Show(@); w := b.A.Val()
+	Show(@, v, w)
+}
+`,
+	"select-default": `package main
+
+import . "verif/engine/twin/h"
+
+func main() {
+	Show(@); c := make(chan int, 2)
+	Show(@); c <- 1
+	for i := 0; i < 3; i++ {
+		select {
+		case v := <-c:
+			Show(@, v)
+		default:
+			Show(@); c <- i * 10
+		}
+	}
+	Show(@, len(c))
+}
+`,
 	"loop": `package main
 
 import . "verif/engine/twin/h"
@@ -274,7 +446,7 @@ var funcRe = regexp.MustCompile(`(?m)^func (?:\([^)]*\) )?([A-Za-z_][A-Za-z0-9_]
 
 func load(thorough bool) []program {
 	var ps []program
-	names := []string{"branch", "branch-both-ways", "loop", "calls", "recursion", "closure", "defer", "panic-recover", "panic-uncaught", "switch", "methods"}
+	names := []string{"branch", "branch-both-ways", "typeswitch", "labels-goto", "nested-closures-defers", "multi-return-variadic", "embedding", "select-default", "loop", "calls", "recursion", "closure", "defer", "panic-recover", "panic-uncaught", "switch", "methods"}
 	for _, n := range names {
 		lines := strings.Split(corpus[n], "\n")
 		var marks []int
@@ -667,7 +839,7 @@ func main() {
 	r.Set("deviation_bound", bound)
 	r.Set("programs", len(ps))
 	r.Set("exhaustive", len(res.Abnormal) == 0)
-	r.Set("rule", "corpus of 11 sequential programs (branches, loops, calls, recursion, closures, defers, recovered and uncaught panics, switch/fallthrough, methods) with one Show(line) marker per breakable line; breakpoint sets: none, every marker line, each single line (thorough: each pair), each function, all functions; start with Continue or Step(DebugEntry); resume answers Continue/StepInto/StepOver/StepOut explored by deviation-bounded DFS (default Continue, <= bound deviations); states = distinct event traces")
+	r.Set("rule", "corpus of 17 sequential programs (branches, loops, calls, recursion, closures, defers, recovered and uncaught panics, switch/fallthrough, methods) with one Show(line) marker per breakable line; breakpoint sets: none, every marker line, each single line (thorough: each pair), each function, all functions; start with Continue or Step(DebugEntry); resume answers Continue/StepInto/StepOver/StepOut explored by deviation-bounded DFS (default Continue, <= bound deviations); states = distinct event traces")
 	r.Assumptions = []string{"sequential programs only (no goroutines under the debugger)", "lines without a marker (compound statement headers) only take part in the transparency comparison", "every-line breakpoint sets are explored with one deviation less than the bound"}
 	for _, i := range []int{0, len(units) / 2, len(units) - 1} {
 		r.Sample(units[i].Base)
